@@ -63,6 +63,95 @@ theorem length_calBody_mem (F : NumFmt) (body : List Instruction) (i : Instructi
   simp only [calItemToks, List.length_cons] at this
   omega
 
+/-- the body of a definition reads back: `parse_block` on the printed body lines, followed by a newline that does
+not continue the block, returns `body.map g` -/
+def BlockRT (F : NumFmt) (d : Nat) (body : List Instruction) (g : Instruction → Instruction) : Prop :=
+  ∀ rest, restOk rest = true →
+    parseBlock (parseInstructionAt (d + 1)) (body.flatMap (calItemToks F) ++ .newLine :: rest) =
+      .ok (body.map g) (.newLine :: rest)
+
+theorem parseBlockInstruction_item (F : NumFmt) (d : Nat) (y : Instruction) (gy : Instruction)
+    (h : ∀ rest, parseInstructionAt (d + 1) (toks F y ++ .newLine :: rest) = .ok gy (.newLine :: rest))
+    (r : List Token) (hr : startsNL r = true) :
+    parseBlockInstruction (parseInstructionAt (d + 1)) (calItemToks F y ++ r) = .ok gy r := by
+  cases r with
+  | nil => simp [startsNL] at hr
+  | cons t r' =>
+    cases t <;> simp [startsNL] at hr
+    simp only [parseBlockInstruction, preceded, bind_eq, Parser.bind, calItemToks, List.cons_append, tok,
+      if_true, h r', pure_eq, Parser.pure]
+
+/-- every body instruction round-trips strongly (one-line kinds) -/
+theorem blockRT_of_RT (F : NumFmt) (d : Nat) (body : List Instruction) (g : Instruction → Instruction)
+    (hne : body ≠ []) (hbody : ∀ i ∈ body, RT F d i (g i)) : BlockRT F d body g := by
+  intro rest hrest
+  cases hb : body with
+  | nil => exact absurd hb hne
+  | cons b bs =>
+    subst hb
+    have hm := many1_items_ok (parseBlockInstruction (parseInstructionAt (d + 1))) (calItemToks F) g startsNL
+      b bs (.newLine :: rest)
+      (fun y hy r hr => parseBlockInstruction_item F d y (g y) (fun r' => (hbody y hy r').1) r hr)
+      (fun y _ => by simp [calItemToks])
+      (fun y _ r => by simp [calItemToks, startsNL]) rfl (parseBlockInstruction_stop _ rest hrest)
+    simp only [parseBlock, List.flatMap_cons, List.append_assoc]
+    exact hm
+
+/-- the LAST body instruction may be a definition: it only needs the top-level round trip (what follows its
+newline is the end of the enclosing block) -/
+theorem blockRT_last (F : NumFmt) (d : Nat) (ls : List Instruction) (t : Instruction)
+    (g : Instruction → Instruction) (hls : ∀ i ∈ ls, RT F d i (g i)) (ht : RTtop F d t (g t)) :
+    BlockRT F d (ls ++ [t]) g := by
+  intro rest hrest
+  have hz : parseBlockInstruction (parseInstructionAt (d + 1)) (calItemToks F t ++ .newLine :: rest) =
+      .ok (g t) (.newLine :: rest) := by
+    simp only [parseBlockInstruction, preceded, bind_eq, Parser.bind, calItemToks, List.cons_append, tok,
+      if_true, (ht rest hrest).1, pure_eq, Parser.pure]
+  have hm := many1_items_last (parseBlockInstruction (parseInstructionAt (d + 1))) (calItemToks F) g startsNL
+    ls t (.newLine :: rest)
+    (fun y hy r hr => parseBlockInstruction_item F d y (g y) (fun r' => (hls y hy r').1) r hr)
+    (fun y _ => by simp [calItemToks]) (by simp [calItemToks])
+    (fun y r => by simp [calItemToks, startsNL]) hz (parseBlockInstruction_stop _ rest hrest)
+  simp only [parseBlock]
+  exact hm
+
+theorem rt_calibrationDefinition_blk (F : NumFmt) (d : Nat) (id : CalibrationIdentifier)
+    (body : List Instruction) (g : Instruction → Instruction)
+    (hfin : id.parameters.all finiteLits = true) (hq : id.qubits.all noPlaceholder = true)
+    (hn : id.parameters.all (numTokOk F) = true)
+    (hbody : BlockRT F d body g)
+    (hd : (toks F (.calibrationDefinition id body)).length ≤ d + 1) :
+    RTtop F (d + 1) (.calibrationDefinition id body)
+      (.calibrationDefinition { id with parameters := id.parameters.map norm } (body.map g)) := by
+  obtain ⟨ms, name, ps, qs⟩ := id
+  simp only at hfin hq hn
+  have htoks : toks F (.calibrationDefinition ⟨ms, name, ps, qs⟩ body) =
+      cmd .defCal :: (ms.map modifierTok ++ identTok name ::
+        (paramsToks F ps ++ qubitsToks qs ++ .colon :: calBodyToks F body)) := by
+    simp only [toks]
+  apply rttop_of_command F (d + 1) _ _ .defCal _ htoks
+  intro rest hrest
+  have hlenp : ∀ e ∈ ps, (printTop F e).length < d + 1 + 1 := by
+    intro e he
+    have := length_paramsToks_ge F ps e he
+    rw [htoks] at hd
+    simp only [List.length_append, List.length_cons, List.length_map] at hd
+    omega
+  have hpe : ∀ x ∈ ps, ∀ r, endOk r = true →
+      parseExpressionAt (d + 1 + 1) (printTop F x ++ r) = .ok (norm x) r := by
+    intro x hx r hr
+    exact parseExpressionAt_printTop F x (List.all_eq_true.mp hfin x hx) (List.all_eq_true.mp hn x hx) _ r
+      (hlenp x hx) hr
+  have hm := hbody rest hrest
+  rw [calBodyToks_eq]
+  simp only [parseCommand, parseDefcal, bind_eq, Parser.bind, List.append_assoc, List.cons_append,
+    opt_measure_modifiers, parseDefcalGate, many0_modifiers]
+  simp only [identTok, tokIdentifier, str_toList]
+  rw [parseParameters_toks F norm _ ps _ hpe (lparen_qubits' qs .colon _ (by simp))]
+  simp only [many0_parseQubit qs hq _ (show notQubit (.colon :: _) = true from rfl), tok, if_true]
+  erw [hm]
+  simp only [pure_eq, Parser.pure]
+
 theorem rt_calibrationDefinition_norm (F : NumFmt) (d : Nat) (id : CalibrationIdentifier)
     (body : List Instruction) (g : Instruction → Instruction)
     (hfin : id.parameters.all finiteLits = true) (hq : id.qubits.all noPlaceholder = true)
@@ -70,59 +159,15 @@ theorem rt_calibrationDefinition_norm (F : NumFmt) (d : Nat) (id : CalibrationId
     (hbody : ∀ i ∈ body, RT F d i (g i))
     (hd : (toks F (.calibrationDefinition id body)).length ≤ d + 1) :
     RTtop F (d + 1) (.calibrationDefinition id body)
-      (.calibrationDefinition { id with parameters := id.parameters.map norm } (body.map g)) := by
-  obtain ⟨ms, name, ps, qs⟩ := id
-  simp only at hfin hq hn
-  cases hb : body with
-  | nil => exact absurd hb hne
-  | cons b bs =>
-    subst hb
-    have htoks : toks F (.calibrationDefinition ⟨ms, name, ps, qs⟩ (b :: bs)) =
-        cmd .defCal :: (ms.map modifierTok ++ identTok name ::
-          (paramsToks F ps ++ qubitsToks qs ++ .colon :: calBodyToks F (b :: bs))) := by
-      simp only [toks]
-    apply rttop_of_command F (d + 1) _ _ .defCal _ htoks
-    intro rest hrest
-    have hlenp : ∀ e ∈ ps, (printTop F e).length < d + 1 + 1 := by
-      intro e he
-      have := length_paramsToks_ge F ps e he
-      rw [htoks] at hd
-      simp only [List.length_append, List.length_cons, List.length_map] at hd
-      omega
-    have hpe : ∀ x ∈ ps, ∀ r, endOk r = true →
-        parseExpressionAt (d + 1 + 1) (printTop F x ++ r) = .ok (norm x) r := by
-      intro x hx r hr
-      exact parseExpressionAt_printTop F x (List.all_eq_true.mp hfin x hx) (List.all_eq_true.mp hn x hx) _ r
-        (hlenp x hx) hr
-    have hitem : ∀ y ∈ b :: bs, ∀ r, startsNL r = true →
-        parseBlockInstruction (parseInstructionAt (d + 1)) (calItemToks F y ++ r) = .ok (g y) r := by
-      intro y hy r hr
-      cases r with
-      | nil => simp [startsNL] at hr
-      | cons t r' =>
-        cases t <;> simp [startsNL] at hr
-        have := (hbody y hy r').1
-        simp only [parseBlockInstruction, preceded, bind_eq, Parser.bind, calItemToks, List.cons_append, tok,
-          if_true, this, pure_eq, Parser.pure]
-    have hm := many1_items_ok (parseBlockInstruction (parseInstructionAt (d + 1))) (calItemToks F) g startsNL
-      b bs (.newLine :: rest) hitem (fun y _ => by simp [calItemToks])
-      (fun y _ r => by simp [calItemToks, startsNL]) rfl (parseBlockInstruction_stop _ rest hrest)
-    rw [calBodyToks_eq]
-    simp only [parseCommand, parseDefcal, bind_eq, Parser.bind, List.append_assoc, List.cons_append,
-      opt_measure_modifiers, parseDefcalGate, many0_modifiers]
-    simp only [identTok, tokIdentifier, str_toList]
-    rw [parseParameters_toks F norm _ ps _ hpe (lparen_qubits' qs .colon _ (by simp))]
-    simp only [many0_parseQubit qs hq _ (show notQubit (.colon :: _) = true from rfl), tok, if_true, parseBlock]
-    simp only [List.flatMap_cons, List.append_assoc]
-    erw [hm]
-    simp only [pure_eq, Parser.pure]
+      (.calibrationDefinition { id with parameters := id.parameters.map norm } (body.map g)) :=
+  rt_calibrationDefinition_blk F d id body g hfin hq hn (blockRT_of_RT F d body g hne hbody) hd
 
-/-- DEFCAL whose body instructions round-trip (to `g i`) at every sufficient fuel -/
-theorem rt_cal_of (F : NumFmt) (d : Nat) (id : CalibrationIdentifier) (body : List Instruction)
+/-- DEFCAL whose body reads back (`BlockRT`) at every fuel sufficient for its instructions -/
+theorem rt_cal_of_blk (F : NumFmt) (d : Nat) (id : CalibrationIdentifier) (body : List Instruction)
     (g : Instruction → Instruction)
     (hfin : id.parameters.all finiteLits = true) (hq : id.qubits.all noPlaceholder = true)
-    (hn : id.parameters.all (numTokOk F) = true) (hne : body ≠ [])
-    (hbody : ∀ d', ∀ i ∈ body, (toks F i).length ≤ d' → RT F d' i (g i))
+    (hn : id.parameters.all (numTokOk F) = true)
+    (hbody : ∀ d', (∀ i ∈ body, (toks F i).length ≤ d') → BlockRT F d' body g)
     (hd : (toks F (.calibrationDefinition id body)).length ≤ d) :
     RTtop F d (.calibrationDefinition id body)
       (.calibrationDefinition { id with parameters := id.parameters.map norm } (body.map g)) := by
@@ -134,7 +179,19 @@ theorem rt_cal_of (F : NumFmt) (d : Nat) (id : CalibrationIdentifier) (body : Li
       have := length_calBody_mem F body i hi
       simp only [toks, List.length_append, List.length_cons, List.length_map] at hd
       omega
-    exact rt_calibrationDefinition_norm F d id body g hfin hq hn hne (fun i hi => hbody d i hi (hlen i hi)) hd
+    exact rt_calibrationDefinition_blk F d id body g hfin hq hn (hbody d hlen) hd
+
+/-- DEFCAL whose body instructions round-trip (to `g i`) at every sufficient fuel -/
+theorem rt_cal_of (F : NumFmt) (d : Nat) (id : CalibrationIdentifier) (body : List Instruction)
+    (g : Instruction → Instruction)
+    (hfin : id.parameters.all finiteLits = true) (hq : id.qubits.all noPlaceholder = true)
+    (hn : id.parameters.all (numTokOk F) = true) (hne : body ≠ [])
+    (hbody : ∀ d', ∀ i ∈ body, (toks F i).length ≤ d' → RT F d' i (g i))
+    (hd : (toks F (.calibrationDefinition id body)).length ≤ d) :
+    RTtop F d (.calibrationDefinition id body)
+      (.calibrationDefinition { id with parameters := id.parameters.map norm } (body.map g)) :=
+  rt_cal_of_blk F d id body g hfin hq hn
+    (fun d' hl => blockRT_of_RT F d' body g hne (fun i hi => hbody d' i hi (hl i hi))) hd
 
 /-- DEFCAL with a `Parsed` body of one-line kinds -/
 theorem rt_calibrationDefinition (F : NumFmt) (d : Nat) (id : CalibrationIdentifier) (body : List Instruction)
